@@ -247,7 +247,7 @@ def shards(tier, seed):
     big = tier == "thorough"
     out = []
     for fmt in OBJ.ALL_FORMATS:
-        out.append((f"gen_{fmt}", "shard_format", {"fmt": fmt, "max_examples": 400 if big else 60}))
+        out.append((f"gen_{fmt}", "shard_format", {"fmt": fmt, "max_examples": 1000 if big else 60}))
     nparts = 8
     for part in range(nparts):
         out.append((f"corpus{part}", "shard_corpus", {"part": part, "nparts": nparts}))
